@@ -163,3 +163,54 @@ func vfNewTimer(d time.Duration) *time.Timer {
 }
 func vfTimerStop(t *time.Timer) bool                   { return true }
 func vfTimerReset(t *time.Timer, d time.Duration) bool { return true }
+
+// ---- helpers for the instance-level harness (package mycoria) ----
+
+// VfModules returns the modules of the group in order.
+func (g *Group) VfModules() []Module {
+	var out []Module
+	for _, gm := range g.modules {
+		out = append(out, gm.module)
+	}
+	return out
+}
+
+var (
+	vfStartedNames []string
+	vfCancelled    = map[*Manager]bool{}
+	vfWaitOrderOK  = true
+)
+
+// vfGo models Manager.Go: the goroutine is not run; the worker counts as started.
+func vfGo(m *Manager, name string, fn func(w *WorkerCtx) error) {
+	vfStartedNames = append(vfStartedNames, name)
+	m.workerStart()
+}
+
+// vfCancel models Manager.Cancel: records it; workers exit on cancellation.
+func vfCancel(m *Manager) {
+	vfCancelled[m] = true
+	n := m.workerCnt.Load()
+	for i := int32(0); i < n; i++ {
+		m.workerDone()
+	}
+}
+
+// vfWaitCancelled models WaitForWorkers for the instance harness.
+func vfWaitCancelled(m *Manager, max time.Duration) bool {
+	if !vfCancelled[m] && m.workerCnt.Load() > 0 {
+		vfWaitOrderOK = false
+	}
+	return m.workerCnt.Load() == 0
+}
+
+func VfWorkers(m *Manager) int { return int(m.workerCnt.Load()) }
+func VfStarted(name string) bool {
+	for _, n := range vfStartedNames {
+		if n == name {
+			return true
+		}
+	}
+	return false
+}
+func VfAllCancelledBeforeWait() bool { return vfWaitOrderOK }
